@@ -2623,11 +2623,12 @@ pub fn check_c16(ix: &Ix<'_>, v: &mut Vec<Violation>) {
         let paused_by_limits = (cfg.max_receive_size != 0 && running_bytes + 8 >= cfg.max_receive_size) || (cfg.max_receive != 0 && running_pubs.len() >= cfg.max_receive as usize);
         if !ended_before_settle && !proto_busy && !paused_by_limits && session_at.is_some() {
             for s in ix.sent.iter().filter(|s| s.conn == conn && !s.corrupt && s.delivered.is_some_and(|d| d < settle)) {
-                let _ = accepted_at;
                 let d = s.delivered.unwrap_or(0);
                 let what = match &s.pkt {
-                    // (a second CONNECT is silently ignored by the server dispatchers, like SUBACK: see the
-                    // C06 known finding; the listed properties do not make it a violation of C16)
+                    // a second CONNECT, or a packet type only a server ever sends (since the repair bb1fa1e the
+                    // server dispatchers report these as unexpected packets instead of dropping them)
+                    Some(Pkt::Connect(_)) if out.plan.role.is_server() && accepted_at.is_some_and(|a| a < s.seq) => Some("second-CONNECT"),
+                    Some(Pkt::ConnAck(_) | Pkt::SubAck(_) | Pkt::UnsubAck(_) | Pkt::PingResp) if out.plan.role.is_server() && accepted_at.is_some_and(|a| a < s.seq) => Some("server-only-packet-type"),
                     Some(Pkt::PubAck(_) | Pkt::PubRec(_) | Pkt::PubComp(_)) if never_sends && session_at.is_some_and(|a| a < s.seq) => Some("ack-for-nothing"),
                     // MQTT 3.1.1: an identifier whose publish handler is still running is certainly in use (C11)
                     Some(Pkt::Publish(p)) if ix.ver == Ver::V3 && p.qos > 0 && p.pid.is_some() => ix
